@@ -156,7 +156,12 @@ static Result run_c18(const Case &c) {
     for (int a : sh) {
         Shared s; s.g = own_shape(a); s.desc = create(s.g);
         if (s.desc <= 0) { r.fail("setup create failed"); return r; }
-        s.s = encode(s.desc, s.g, tdata(s.g, a % 50));
+        if (c.get("cold_shared")) {
+            // the stripe comes from a sibling instance: the shared descriptor has never been used when the threads start
+            Instance sib(s.g);
+            if (!sib.ok()) { r.fail("setup create failed"); return r; }
+            s.s = encode(sib.desc, s.g, tdata(s.g, a % 50));
+        } else s.s = encode(s.desc, s.g, tdata(s.g, a % 50));
         if (s.s.rc != 0) { r.fail("setup encode failed"); return r; }
         shared.push_back(std::move(s));
     }
@@ -229,6 +234,7 @@ static Case gen_c18() {
         }
     }
     c.setv("ops", ops);
+    c.set("cold_shared", coin() ? 1 : 0);
     return c;
 }
 
